@@ -362,8 +362,15 @@ def run(m: Model, r: Report, tier: str) -> None:
             "the function must end by raising the recorded terminal exception", loc=fn.loc)
     ldefs = [a for a in assigns(LAST) if isinstance(a, ast.Assign) or isinstance(a, ast.AnnAssign)]
     ldefs += [n for n in walk_no_nested(fn.node) if isinstance(n, ast.AnnAssign) and ast.unparse(n.target) == LAST and n.value is not None]
-    r.check(bool(ldefs) and all(ast.unparse(a.value).startswith("MissingResponse(request") for a in ldefs), "R6",
-            f"{fn.qualname}#terminal-type", f"last_exception is built by {[ast.unparse(a.value)[:40] for a in ldefs]}", loc=fn.loc)
+    def _built_by(a) -> str:
+        # `last_exception = missing` with `missing = MissingResponse(...)` defined once: the constructor call
+        if isinstance(a.value, ast.Name):
+            d_ = [x for x in assigns(a.value.id) if isinstance(x, ast.Assign)]
+            if d_ and len({ast.unparse(x.value) for x in d_}) == 1:
+                return ast.unparse(d_[0].value)
+        return ast.unparse(a.value)
+    r.check(bool(ldefs) and all(_built_by(a).startswith("MissingResponse(request") for a in ldefs), "R6",
+            f"{fn.qualname}#terminal-type", f"last_exception is built by {[_built_by(a)[:40] for a in ldefs]}", loc=fn.loc)
     hs = [n for n in walk_no_nested(fn.node) if isinstance(n, ast.ExceptHandler) and n.type is not None and ast.unparse(n.type) == "ConnectionError"
           and WHILE not in ancestors(n, par) and not any(isinstance(a_, ast.ExceptHandler) for a_ in ancestors(n, par))]
     if len(hs) != 1:
@@ -377,12 +384,19 @@ def run(m: Model, r: Report, tier: str) -> None:
             "the poll read of the pending phase has no ConnectionError handler: a connection that is lost (reset, end of stream) after a responsePending leaves "
             "request_unsafe as a raw ConnectionError / BrokenPipeError - no MissingResponse, no reconnect, no retransmission although retries remain", loc=fn.loc)
     for h, where_, last_stmt in [(hs[0], "attempt", ast.Continue)] + [(x, "pending", ast.Break) for x in hs_w]:
-        cause = any(isinstance(s, ast.Assign) and ast.unparse(s.targets[0]) == f"{LAST}.__cause__" and ast.unparse(s.value) == h.name for s in h.body)
+        alias_ = {LAST} | {s.value.id for s in ast.walk(h) if isinstance(s, ast.Assign) and ast.unparse(s.targets[0]) == LAST and isinstance(s.value, ast.Name)}
+        cause = any(isinstance(s, ast.Assign) and isinstance(s.targets[0], ast.Attribute) and s.targets[0].attr == "__cause__" and ast.unparse(s.targets[0].value) in alias_
+                    and ast.unparse(s.value) == h.name for s in ast.walk(h))
         r.check(cause, "R6", f"{fn.qualname}#cause@{where_}", "the MissingResponse does not carry the ConnectionError as __cause__", loc=fn.loc)
         rec = [n for n in ast.walk(h) if isinstance(n, ast.Call) and isinstance(n.func, ast.Attribute) and n.func.attr.startswith("reconnect")]
-        ok_rec = len(rec) == 1 and ast.unparse(rec[0].func) == "self.reconnect_unsafe" and \
-            any(isinstance(a, ast.If) and ast.unparse(a.test).replace(" ", "") == f"{IV}<{MR}" for a in ancestors(rec[0], par))
-        r.check(ok_rec, "R6", f"{fn.qualname}#reconnect@{where_}",
+        ok_rec = len(rec) == 1 and ast.unparse(rec[0].func) == "self.reconnect_unsafe"
+        if ok_rec:
+            from sa.uds_rules import _attempt_cases
+            try:
+                ok_rec = not _attempt_cases(fn, rec[0], IV, MR, lambda a_: a_[IV] < a_[MR])
+            except AnalysisError:
+                ok_rec = None
+        r.check3(ok_rec, "R6", f"{fn.qualname}#reconnect@{where_}",
                 f"reconnect call(s) {[ast.unparse(x.func) for x in rec]}: must be reconnect_unsafe (the client mutex is already held) under `i < max_retry`", loc=fn.loc)
         r.check(isinstance(h.body[-1], last_stmt), "R6", f"{fn.qualname}#handler-continues@{where_}", "the ConnectionError handler must start the next attempt", loc=fn.loc)
         # the reconnect attempt can fail as well (the peer is not back yet): that failure must not leave request_unsafe as a raw ConnectionError while retries remain
